@@ -7,7 +7,7 @@ Import ListNotations.
 From Femto Require Import Path.Laser.
 From FemtoTie Require Import PyPrelude.
 
-Record lb_cfg := { lb_x_init : Q; lb_y_init : Q; lb_z_init : option Q; lb_speed : Q; lb_speed_pos : Q; lb_speed_closed : Q }.
+Record lb_cfg := { lb_x_init : Q; lb_y_init : Q; lb_z_init : option Q; lb_speed : Q; lb_speed_pos : Q; lb_speed_closed : Q; lb_warp_flag : bool }.
 Record lb_st := { lb__x : list Q; lb__y : list Q; lb__z : list Q; lb__f : list Q; lb__s : list Q }.
 Definition ML : Type -> Type := @M lb_st.
 Definition lb_s0 : lb_st := {| lb__x := []; lb__y := []; lb__z := []; lb__f := []; lb__s := [] |}.
@@ -25,3 +25,30 @@ Fixpoint zip5 (x y z f s : list Q) : list lpt :=
   | _, _, _, _, _ => []
   end.
 Definition path_of (st : lb_st) : list lpt := zip5 (lb__x st) (lb__y st) (lb__z st) (lb__f st) (lb__s st).
+
+(* ---- linear(): one-element numpy arrays read as their element; the square root kept as its radicand ---- *)
+Inductive sqrtv := SqrtOf (radicand : Q).
+(* sqrt(r) <= c  for a constant c >= 0 *)
+Definition sqrt_le (v : sqrtv) (c : Q) : bool := let 'SqrtOf r := v in Qle_bool r (c * c).
+Definition sq (q : Q) : Q := q * q.
+(* k or 0 *)
+Definition or0 (o : option Q) : Q := match o with Some v => if truthy v then v else 0 | None => 0 end.
+(* an array handed to add_path: a scalar (one-element array) or an array *)
+Class AsVec (A : Type) := as_vec : A -> list Q.
+Global Instance asvec_Q : AsVec Q := fun q => [q].
+Global Instance asvec_list : AsVec (list Q) := fun l => l.
+(* v * np.ones_like(a) *)
+Class FillLike (A : Type) := fill_like : Q -> A -> A.
+Global Instance fill_Q : FillLike Q := fun v _ => v.
+Global Instance fill_list : FillLike (list Q) := fun v l => map (fun _ => v) l.
+(* np.linspace(a, b, num) *)
+Definition np_linspace (a b : Q) (num : Z) : list Q :=
+  match Z.to_nat num with
+  | O => []
+  | S O => [a]
+  | S n => map (fun i => a + inject_Z (Z.of_nat i) * ((b - a) / inject_Z (Z.of_nat n))) (seq 0 (S n))
+  end.
+Global Instance tofloat_Z_lb : ToFloat Z := inject_Z.
+
+(* num_subdivisions(l_curve, speed) of a length given as a square root: not used when warp_flag is False; an oracle otherwise *)
+Definition lb_num_sub (c : lb_cfg) (l : sqrtv) (speed : Q) : ML Z := ret 3%Z.
